@@ -69,6 +69,11 @@ def gen(rng, tier):
             for _ in range(rng.randrange(0, 8)):
                 life['steps'].append([rng.choice(STEPS), rng.choice(NSS),
                                       rng.randrange(1000)])
+            if rng.random() < 0.2:
+                # "the host leaves, kick the guests": a second client on the
+                # same namespaces, disconnected by this client's disconnect
+                # handler (the two terminations are nested)
+                life['guest'] = True
             if rng.random() < 0.3:
                 life['late'] = rng.sample(['enter_new', 'enter_existing',
                                            'leave', 'emit_cb', 'disconnect'],
@@ -152,6 +157,7 @@ def _run(case, cfg, w, kw):
 
     owner_of = {}
     inv_count = {}
+    kick_map = {}       # (sid, ns) -> sid its disconnect handler kicks
 
     def plan(label, args, ev):
         event = label[3]
@@ -179,11 +185,18 @@ def _run(case, cfg, w, kw):
         else:
             hit = cfg['raise_p'] and w.choices.chance(
                 'faults', cfg['raise_p'], 8, 'raise')
+        if event == 'disconnect':
+            tgt = kick_map.pop((args[0], ns), None)
+            if tgt is not None:
+                faults['nested_disconnect'] = faults.get(
+                    'nested_disconnect', 0) + 1
+                steps.append(('do', lambda: srv.disconnect(tgt,
+                                                           namespace=ns)))
         if hit:
             faults['handler_raised'] += 1
             w.rec.count('fault.handler_raise.' + event)
-            return [('raise', excs[cfg['exc']]('injected'))]
-        return [('ret', None)]
+            return steps + [('raise', excs[cfg['exc']]('injected'))]
+        return steps + [('ret', None)]
 
     def build_server(name):
         srv = w.add_server(name, always_connect=cfg['always_connect'],
@@ -265,6 +278,19 @@ def _run(case, cfg, w, kw):
                     s = e['args'][0]
                     if (ns, s) not in sids:
                         sids.append((ns, s))
+        guest = None
+        guest_sids = []
+        if life.get('guest'):
+            gname = 'guest%d' % p
+            guest = sc.open(gname)
+            for ns, sid in list(sids):
+                if not sc.sid(p, ns):
+                    continue
+                behaviours[(guest.conn.cid, ns)] = 'accept'
+                gs = sc.connect(gname, ns)
+                if gs:
+                    guest_sids.append((ns, gs))
+                    kick_map[(sid, ns)] = gs
         mid_binary = False
         for step, ns, r in life['steps']:
             sid = sc.sid(p, ns)
@@ -405,6 +431,15 @@ def _run(case, cfg, w, kw):
                     w.settle()
         check_gone(eio_sid, sids, 'life of peer %d (end %s)' % (p, end))
         ended_sids.extend(sids)
+        if guest is not None:
+            for ns, sid in sids:
+                kick_map.pop((sid, ns), None)
+            g_eio = guest.eio_sid
+            guest.sever(0.0)
+            w.settle()
+            sc.drop_transport('guest%d' % p)
+            check_gone(g_eio, guest_sids, 'guest of peer %d' % p)
+            ended_sids.extend(guest_sids)
 
     resident = None
     if cfg.get('resident'):
